@@ -43,5 +43,19 @@ func init() {
 		seeded("C17", "C17-2", "C17-O5", ""),
 		seeded("C19", "C19-2", "C19-E4", "late-error callback"),
 		seeded("C10", "C10-2", "C10-J1", "join.New sides"),
+		// round 4
+		seeded("C01", "C01-3", "C01-T1", "value type ID"),
+		seeded("C02", "C02-2", "C02-D1", "records an observed member type"),
+		seeded("C03", "C03-2", "C03-N1", "copies a bitmap word"),
+		seeded("C04", "C04-3", "C04-T1", "text byte"),
+		seeded("C01", "C05-2", "C01-O8", "MapperLookupCache).Reset"),
+		seeded("C06", "C06-2", "C06-F2", "Compare key evaluation"),
+		seeded("C09", "C09-2", "C09-G2", "returns the examiner"),
+		seeded("C11", "C11-2", "C11-B1", "write through the output cursor"),
+		seeded("C12", "C12-3", "C12-F1", "journal.Store).Lookup called from"),
+		seeded("C14", "C14-3", "C14-S3", "sets lake.Writer.inputSorted"),
+		seeded("C15", "C15-2", "C15-E2", "child delete absent from the parent"),
+		seeded("C18", "C18-3", "C18-E1", ""),
+		seeded("C20", "C20-2", "C20-M2", "builds a set type"),
 	)
 }
